@@ -313,3 +313,17 @@ class HarnessError(Exception):
 
 class SetupFailure(HarnessError):
     """A preparatory call on the code under test (warm-up / initial history) did not succeed."""
+
+
+# the package's pristine module-level / class-level state is recorded now, before any store exists (gstate.py)
+def _capture_pristine_package_state():
+    try:
+        import hashstore.filehashstore  # noqa: F401
+        import hashstore.hashstoreclient  # noqa: F401
+    except Exception:  # noqa: BLE001 - a tree that does not import is reported by the check that drives it
+        return
+    from . import gstate
+    gstate.capture()
+
+
+_capture_pristine_package_state()
